@@ -4,7 +4,7 @@ import os
 import shutil
 
 from ..core import MachineryError, scratch
-from ..procs import pmap, run_forked
+from ..procs import ChildCrashed, pmap, run_forked
 from ..tlaparse import parse_trace_file
 from ..tlc import account, run_tlc
 
@@ -67,10 +67,18 @@ def _run_one(job):
 
     d = scratch(f'c15-{os.getpid()}') / f'b{idx}'
     try:
-        out = run_forked(cache_sched.execute, beh['steps'], beh['ops'], beh['present'], str(d), timeout=60)
+        out = run_forked(cache_sched.execute, beh['steps'], beh['ops'], beh['present'], str(d), timeout=40)
+    except ChildCrashed:
+        out = _hung(beh['ops'])
     finally:
         shutil.rmtree(d, ignore_errors=True)
     return idx, out
+
+
+def _hung(ops):
+    """the controlled execution did not terminate: every caller counts as not returned"""
+    return dict(results={}, file=None, drift=['execution did not terminate'], log=[], computes=[], hung=sorted(ops),
+                facts={c: {'complete_at_start': None, 'disturbed': True, 'computed': False} for c in ops})
 
 
 def _run_random(job):
@@ -81,7 +89,9 @@ def _run_random(job):
 
     d = scratch(f'c15-{os.getpid()}') / f'r{idx}'
     try:
-        out = run_forked(cache_sched.execute, None, ops, present, str(d), None, 'the key', random.Random(seed), timeout=60)
+        out = run_forked(cache_sched.execute, None, ops, present, str(d), None, 'the key', random.Random(seed), timeout=40)
+    except ChildCrashed:
+        out = _hung(ops)
     finally:
         shutil.rmtree(d, ignore_errors=True)
     return idx, out
